@@ -40,7 +40,7 @@ theorem nodes_included_limit (mt : Str → Str → Bool) (base rootName : Str) (
     s ∈ g.nodes ↔
       (∃ m ∈ (scanParsed mt base rootName mp entries o).allModules, s ∈ withParents (flattenNode (shiftedLimit o mp) m)) ∨
       (∃ j ∈ I, isInternal j.importee (internalPrefix rootName mp) = false ∧
-        retained mt o (internalPrefix rootName mp) j = true ∧ isInfix base j.importee = false ∧
+        retained mt o (internalPrefix rootName mp) j = true ∧
         s ∈ withParents (flattenNode (shiftedLimit o mp) j.importee)) :=
   Pta.ExtLimit.nodes_included_lemma mt base rootName mp entries o g hx h I hI s
 
@@ -101,7 +101,7 @@ theorem externals_not_retained_iff (mt : Str → Str → Bool) (base rootName : 
       (∃ m ∈ (scanParsed mt base rootName mp entries o).allModules,
         flattenNode (shiftedLimit o mp) i.importee ∈ withParents (flattenNode (shiftedLimit o mp) m)) ∨
       (∃ j ∈ I, isInternal j.importee (internalPrefix rootName mp) = false ∧
-        retained mt o (internalPrefix rootName mp) j = true ∧ isInfix base j.importee = false ∧
+        retained mt o (internalPrefix rootName mp) j = true ∧
         flattenNode (shiftedLimit o mp) i.importee ∈ withParents (flattenNode (shiftedLimit o mp) j.importee))) ∧
     (flattenNode (shiftedLimit o mp) i.importee ∉ g.nodes →
       ∀ x ∈ g.edges, x.src ≠ flattenNode (shiftedLimit o mp) i.importee ∧
